@@ -411,6 +411,28 @@ def r5_ratelimit(chk: Check) -> None:
             elif all(g.dominated_by_edge(n, tid, "false" if lbl == "true" else "true") for n in nodes):
                 ok = False
         chk.decide(ok if tests else True, "C12.R5", rl, "ratelimit() acquires from the limiter", "try_acquire is only called when NO limiter is configured", rl.loc(acq[0]))
+    # FAIL-CLOSED: ratelimit() discards what try_acquire returns, so a limiter that cannot grant a slot must raise (or
+    # block) - a Limiter built with raise_when_fail=False answers False instead and the request goes out at once.
+    discarded = bool(acq) and isinstance(stmt_of(acq[0]), ast.Expr)
+    n_lim = 0
+    for fn in P.all_functions():
+        if fn.module.relpath != "core/rate_limit.py":
+            continue
+        for c in body_calls(fn):
+            if last_attr(c) != "Limiter":
+                continue
+            n_lim += 1
+            kw = kwarg(c, "raise_when_fail")
+            if kw is None:
+                verdict: bool | None = True
+            elif isinstance(kw, ast.Constant):
+                verdict = True if (kw.value or not discarded) else False
+            else:
+                verdict = True if not discarded else None
+            chk.decide(verdict, "C12.R5", fn, "Limiter(...) fails closed (raise_when_fail is not switched off while ratelimit() discards try_acquire's result)",
+                       "the limiter is built with raise_when_fail=False and ratelimit() ignores the False that try_acquire then returns: once the wait exceeds max_delay requests are sent unthrottled", fn.loc(c))
+    if n_lim < 1:
+        chk.undecided("C12.R5", "<discovery>", "Limiter constructions=0", "no Limiter(...) construction found in core/rate_limit.py")
     cf = P.func("schemas.py:BaseSchema.configure")
     chk.decide(any(last_attr(c) == "build_limiter" and unparse(c.args[0]) == "rate_limit" for c in body_calls(cf) if c.args), "C12.R5", cf, "configure(rate_limit=) builds the limiter", "the configured rate limit never becomes a limiter", cf.loc())
     cl = P.func("schemas.py:BaseSchema.clone")
